@@ -390,7 +390,8 @@ def fracNanos (f unit k : Nat) : Option Nat := do
   let p ← Float.mul ff q
   pure (Float.trunc p)
 
-/-- the `for s != ""` loop of `ParseDuration`; `fuel` bounds the iterations (each consumes ≥ 1 byte) -/
+/-- the `for s != ""` loop of `ParseDuration`; `fuel` bounds the iterations (each consumes ≥ 1 byte;
+    `parseDuration` supplies `len + 4`) -/
 def parseDurLoop : Nat → Bytes → Nat → Option Nat
   | 0, _, _ => none
   | fuel + 1, s, d =>
@@ -435,7 +436,7 @@ def parseDuration (s0 : Bytes) : Option Int :=
     | [] => (false, [])
   if s == [48] then some 0
   else if s.isEmpty then none
-  else match parseDurLoop (s.length + 1) s 0 with
+  else match parseDurLoop (s.length + 4) s 0 with
     | none => none
     | some d =>
       if neg then some (-(d : Int))
